@@ -10,8 +10,8 @@
     and nesting) the generated body is proved to be a run of the grammar of generated code [denotes] standing for the
     segment list of the template; what Go does with such a run is the trusted step, and the rendered bytes are
     compared with the generator's denotation on generated templates and environments by the C01 check.
-    Not in the proved fragment: a class attribute with a conditional value (`class?`), the :preserve filter
-    and preserved text.  Attribute names are covered for plain characters (F06).
+    Not in the proved fragment: a class attribute with a conditional value (`class?`).  Attribute names are covered
+    for plain characters (F06).
     OBLIGATIONS: C01_static_tree_reads_as_its_html C01_static_body_reads_as_its_html C01_static_template_code
                  C01_static_template_literal_value C01_static_document_survives_whitespace_pass
                  C01_template_with_interpolation_code C01_segments_of_static_tree C01_nonvacuous C01_nonvacuous_dynamic C01_nonvacuous_helpers C01_nonvacuous_class_attribute C01_nonvacuous_filters C01_nonvacuous_braces *)
@@ -67,7 +67,7 @@ Print Assumptions C01_static_document_survives_whitespace_pass.
 
 (** templates with interpolation, `=` scripts, unescaped `!=` / `!` lines, dynamic and conditional attributes, object
     references `[obj]` (goht.ObjectID / BuildClassList), `@attributes` (goht.BuildAttributeList), the whitespace marks
-    `>` `<`, comment blocks, the :javascript / :css / :plain / :escaped filters, and
+    `>` `<`, comment blocks, the :javascript / :css / :plain / :preserve / :escaped filters, and
     a class attribute with a dynamic or quoted value (`{class: #{expr}}`: the value joins the arguments of BuildClassList; `{class: "x y"}`: its names join the
     class shorthands in the literal; in both cases no attribute of that name is written), and
     `-` lines (Go statements; blocks written without braces: if / else if / else chains, for, switch with its case lines;
@@ -254,7 +254,8 @@ Print Assumptions C01_nonvacuous_class_attribute.
 (** filters, a comment block and whitespace marks *)
 Definition ex4_src : bytes :=
   lit "@goht T(a string) {" ++ [10; 9] ++ lit ":javascript" ++ [10; 9; 9] ++ lit "var x = ""#{a}"";" ++ [10; 9] ++
-  lit ":plain" ++ [10; 9; 9] ++ lit "<b>#{a}</b>" ++ [10; 9] ++ lit "/" ++ [10; 9; 9] ++ lit "%p>< in" ++ [10] ++ lit "}" ++ [10].
+  lit ":plain" ++ [10; 9; 9] ++ lit "<b>#{a}</b>" ++ [10; 9] ++ lit ":preserve" ++ [10; 9; 9] ++ lit "k\n#{a}" ++ [10; 9] ++
+  lit "/" ++ [10; 9; 9] ++ lit "%p>< in" ++ [10] ++ lit "}" ++ [10].
 Definition ex4_items : list node :=
   Eval vm_compute in match compile_parse ex4_src with ODone (Node _ items) None => items | _ => [] end.
 
@@ -265,6 +266,8 @@ Example C01_nonvacuous_filters :
       eval_segs (fun e => lit "<" ++ e ++ lit ">") (segs_list false body) =
         lit "<script>" ++ [10] ++ lit "var x = ""&lt;a&gt;"";" ++ [10] ++ lit "</script>" ++
         lit "<b><a></b>" ++ [10] ++
+        (* preserved text: a backslash and an n stay what they are (fix 1d27881), the line break becomes an entity *)
+        lit "k\n<a>&#x000A;" ++ [10] ++
         lit "<!--" ++ [10] ++ c_NukeBefore ++ lit "<p>" ++ c_NukeAfter ++ lit "in" ++ c_NukeBefore ++ lit "</p>" ++ c_NukeAfter ++ lit "-->" ++ [10]
   | _ => False
   end.
@@ -274,7 +277,7 @@ Proof.
     first [ dn1
           | match goal with
             | |- (_ <> [] /\ _) \/ _ => first [left; split; [discriminate|] | right]
-            | |- (_ = _ /\ _) \/ _ => first [left; split; [reflexivity|] | right; split; [reflexivity|]]
+            | |- (_ = _ /\ _) \/ _ => first [left; split; [reflexivity|] | right]
             | |- _ = [] /\ _ => split; [reflexivity|]
             | |- false = true \/ _ => right
             | |- true = true \/ _ => left; reflexivity
